@@ -235,13 +235,25 @@ func TestC03WellFormed(t *testing.T) {
 		// first marshal did to the document's lists must not show).
 		var again []byte
 
+		// Half the time under another prefix: the document is the caller's and
+		// PrePath is a public field that a caller may change between two calls.
+		prefix2 := c.PrePath
+		if rapid.Bool().Draw(t, "reprefix") {
+			prefix2 = rapid.SampledFrom([]string{"", "/", "https://other", "https://h/v2/", "/q"}).Draw(t, "prefix2")
+			c.Doc.PrePath = prefix2
+
+			if prefix2 != c.PrePath {
+				r.Label("second-marshal:other-prefix")
+			}
+		}
+
 		if p := oracle.Try(func() { again, err = jsonapi.MarshalDocument(c.Doc, c.URL) }); p != nil || err != nil {
 			t.Fatalf("C03 violated: a second MarshalDocument of the same document: %v %v\ncase: %s\ncalls: %v", p, err, c, calls)
 		}
 
 		ds2, derr2 := oracle.DecodeDocument(again)
 		if derr2 == nil {
-			derr2 = oracle.ValidateStructure(ds2, c.PrePath, identifiers)
+			derr2 = oracle.ValidateStructure(ds2, prefix2, identifiers)
 		}
 
 		if derr2 != nil {
